@@ -3,7 +3,7 @@
 (* One case = one public call:                                                             *)
 (*   H, W, vr, vc      raster shape and the observer cell the coordinates denote            *)
 (*   ew, ns            |cell size| (integers)                                               *)
-(*   cells[r][c]       observed output class [neg1, is180, inrange, angok, mdeg, dh4]       *)
+(*   cells[r][c]       observed output class [neg1, is180, inrange, angok, mdeg, dhs, dh4ok, dh4] *)
 (*   blocks[n][c]      float bridge, row-major cell ids (1-based sequences): 0 / 1 / 2      *)
 (*   svr, svc, sew, sns, order   what _viewshed_cpu handed to the sweep (observer cell,      *)
 (*                     |resolution|, sorted event list <<r,c,type,tie>>); step level         *)
